@@ -46,8 +46,8 @@ func printNode(node *shared.TreeNode, level int, output io.Writer, collapseLast 
 		child := node.Children[key]
 		if len(child.Children) == 0 {
 			fmt.Fprintf(output, "%10.2f | %s%s\n", child.Total, strings.Repeat("  ", level), child.Name)
-		} else if collapseLast && len(child.Children) == 1 && len(child.FirstChild().Children) == 0 {
-			// combine the last two levels
+		} else if collapseLast && len(child.Children) == 1 && len(child.FirstChild().Children) == 0 && child.FirstChild().Total == child.Total {
+			// combine the last two levels (unless the category has entries of its own: the leaf's amount would be hidden)
 			fmt.Fprintf(output, "%10.2f | %s%s\n", child.Total, strings.Repeat("  ", level), child.Name+"/"+child.FirstChild().Name)
 			continue
 		} else {
